@@ -18,6 +18,7 @@ type Cell struct {
 	v    Value
 	kids []*Cell
 	born int32
+	rel  bool // the object was handed back to a sync.Pool and not taken out again
 	t    types.Type
 }
 
@@ -296,6 +297,9 @@ func isAggVal(v Value) bool {
 
 func (in *Interp) loadCell(c *Cell) Value {
 	if c.kids == nil {
+		if c.rel {
+			in.usedAfterPut(c)
+		}
 		if p, ok := c.v.(Poison); ok && !in.initMode {
 			in.unsupported("read of uninitialised/poisoned global: " + p.why)
 		}
@@ -341,6 +345,9 @@ func (in *Interp) storeCell(c *Cell, v Value) {
 			panic(fmt.Sprintf("storeCell: aggregate cell %v gets %T", c.t, v))
 		}
 		return
+	}
+	if c.rel {
+		in.usedAfterPut(c)
 	}
 	if c.born < in.epoch {
 		in.undo = append(in.undo, undoRec{c: c, old: c.v})
